@@ -625,7 +625,9 @@ def check_cf(case, root):
     raw_text = "".join(l + "\n" for l in lines)
     with open(path, "w", newline="") as fh:
         fh.write(raw_text)
-    b_cleaner(cfg).clean_file(path, no_redact=cfg["no_redact"], allowlist=cfg["allow"])
+    def allow():      # a private copy per call: a case must never see what an earlier call did to the mapping
+        return None if cfg["allow"] is None else dict(cfg["allow"])
+    b_cleaner(cfg).clean_file(path, no_redact=cfg["no_redact"], allowlist=allow())
     v = []
     feats = {}
     exists = os.path.exists(path)
@@ -637,7 +639,12 @@ def check_cf(case, root):
         got = data.split("\n")
         if got and got[-1] == "":
             got.pop()
-        if not nonblank(got):
+        if not nonblank(got) and syms == "":
+            # an EMPTY INPUT file is outside the clause (coordinator's decision, weaker reading): the statement speaks of a
+            # spec LEFT with no non-blank line by the cleaning; clean_file deliberately leaves a file it had nothing to do
+            # with (`if raw_data:`) - counted, not judged
+            feats["left"] = "empty-input-file-not-judged"
+        elif not nonblank(got):
             # left: what the stored file consists of although no non-blank line is left
             feats["left"] = ("empty-input-file" if syms == "" else "zero-bytes" if data == "" else "only-empty-lines")
             v.append(("emptiness:clean_file-removes-file", "file removed: no non-blank line is left",
@@ -646,7 +653,7 @@ def check_cf(case, root):
             v += check_tokens(syms, got)
             # a line that survives only when its terminator is counted as content is not a non-blank line;
             # a surviving tagged line proves the file is rightly kept.  Removal itself is decided by the reference below.
-            ref = b_cleaner(cfg).clean_content([l + "\n" for l in lines], no_redact=cfg["no_redact"], allowlist=cfg["allow"])
+            ref = b_cleaner(cfg).clean_content([l + "\n" for l in lines], no_redact=cfg["no_redact"], allowlist=allow())
             if ref == []:
                 feats["left"] = "should-be-removed"
                 v.append(("emptiness:clean_file-removes-file", "file removed: clean_content of its lines is []",
@@ -677,7 +684,7 @@ def _judge_write(res, syms, what):
 def check_wr(case, root):
     """A provider under a HostContext: write(); write() of the SAME provider once more (persisted twice);
     then a fresh provider whose .content is looked at before Hydration.dehydrate persists it."""
-    from insights.core.exceptions import ContentException, CalledProcessError
+    from insights.core.exceptions import ContentException, CalledProcessError, NoFilterException
     from insights.core.serde import Hydration
     cfg, syms = case["cfg"], case["syms"]
     lines = build_lines(syms)
@@ -705,7 +712,7 @@ def check_wr(case, root):
     b, comp, p = lib.make_provider(sp, cfg["spec"], indir, lines, lib_cleaner_case())
     try:
         list(p.content)
-    except (ContentException, CalledProcessError):
+    except (ContentException, CalledProcessError, NoFilterException):
         pass
     Hydration(root=out).dehydrate(comp, b)
     files = lib.list_files(out)
